@@ -303,6 +303,7 @@ func genC05(c *Ctx, r *rng.R, i int) {
 		calls[k] = genCall(r, ty, tg)
 	}
 	var result cty.Value
+	baseBefore, baseCoq := fingerprint(base), cq.Val(base)
 	panicked, pmsg := recovered(func() {
 		b := base.Refine()
 		for _, k := range calls {
@@ -310,6 +311,10 @@ func genC05(c *Ctx, r *rng.R, i int) {
 		}
 		result = b.NewValue()
 	})
+	// the builder works on a copy: the value it was started from says afterwards what it said before
+	if after := fingerprint(base); after != baseBefore || cq.Val(base) != baseCoq {
+		c.Fail("C05/builder-changes-base", "refining changed the value the builder was started from: "+trunc(baseBefore, 200)+" -> "+trunc(after, 200), map[string]interface{}{"base": baseBefore})
+	}
 	coqCalls := make([]string, n)
 	shown := make([]string, n)
 	for k := range calls {
